@@ -113,6 +113,24 @@ pub fn run_parse(req: &J) -> J {
   o
 }
 
+/// parseseq: the texts are parsed one after the other IN THIS PROCESS (same thread): the outcome of a text must not depend on
+/// what was parsed before it.  Returns the core outcome record of every parse.
+pub fn run_parse_seq(req: &J) -> J {
+  let empty = vec![];
+  let texts = req.get("texts").and_then(|t| t.as_array()).unwrap_or(&empty);
+  let mut outs = vec![];
+  for t in texts.iter() {
+    let text = t.as_str().unwrap_or("");
+    #[cfg(mech_verif)]
+    {
+      mech_syntax::verif_hooks::reset();
+    }
+    let (o, _) = parse_outcome(text, false);
+    outs.push(o);
+  }
+  json!({"outs": outs})
+}
+
 pub fn run_format(req: &J) -> J {
   let text = req.get("text").and_then(|t| t.as_str()).unwrap_or("");
   let (o1, t1) = parse_outcome(text, true);
